@@ -8,7 +8,7 @@ import re
 from . import coqfmt
 from .common import gallina_str, gallina_list, gallina_opt, gallina_bool
 
-HEADER = ("From CV Require Import Base.Str Apath Entry Store Stitch StitchProg Codec Backup Ops Delete Read Corr.Run Corr.Trace.\n"
+HEADER = ("From CV Require Import Base.Str Apath Entry Store Stitch StitchProg Codec Backup Ops Delete Read Inv Conf Corr.Run Corr.Trace.\n"
           "Local Open Scope N_scope.\n")
 
 BAND_RE = re.compile(r"^b(\d+)$")
@@ -450,6 +450,14 @@ class History:
         self.checks.append((name, f"step {self.k} ({op})"))
         self.state = f"a_{self.cid}_{self.k}"
         self.lines.append(f"Definition {self.state} : Store.arch := r_arch {s}.")
+        if op == "backup":
+            # the hypotheses of the invariant theorems hold of this run's inputs and of the state it reaches
+            name3 = f"c_{self.cid}_{self.k}_premises"
+            srcname = f"src_{self.cid}_{self.k}"
+            self.lines.append(f"Definition {srcname} := {g_sitems(self.walk, self.src_tree)}.")
+            self.lines.append(f"Definition {name3} : N := if srcsorted_b {srcname} && srcvalid_b {srcname} && srcwf_b {srcname} "
+                              f"&& conf_b {self.state} && ainv_b {self.state} && wfparents_b pre {self.state} then 0 else 7.")
+            self.checks.append((name3, f"premises/invariants (SrcSorted, SrcValid, SrcWF, Conf, AInv, WFparents) at step {self.k}"))
         if op == "list" and res.get("result") == "ok":
             ents = gallina_list([coqfmt.g_entry(e["raw"], self.names.by_hash) for e in res["value"]])
             name2 = f"c_{self.cid}_{self.k}_entries"
